@@ -89,6 +89,7 @@ func regexLanguage(re *syntax.Regexp, bound int) ([]string, bool) {
 }
 
 func runC17(c *Ctx, r *Report) {
+	defer round8(c, r, "C17")
 	l := c.L
 	defer c17r11(c, r)
 	defer c17r12(c, r)
